@@ -12,10 +12,16 @@ ASSUMPTIONS = [
 
 def run(ctx):
     r = PS.run_histories(ctx, "C09", ctx.scale(250, 6000), ctx.scale(24, 40))
+    import collections
+    h2 = collections.Counter()
+    r["violations"] = list(r.get("violations", [])) + PS.huge_id_checks(h2)["C09"][:5]
+    r.setdefault("histogram", {}).update(dict(h2))
+    r["evaluations"] = r.get("evaluations", 0) + sum(h2.values())
     r["rule"] = ("joint client/server histories (client calls, server calls with every id class: outstanding / search / retired / never issued / 0 / "
                  "negative, drains of every amount class incl. negative and oversized, partial and whole deliveries of the peer's real bytes, crafted "
                  "single messages of every kind, corrupted and random bytes, registrations), generated state-aware by a shadow implementation; monitor: "
                  "client ids are 1,2,3,… in call order and are the ids inside the emitted bytes; a single delivered message is accepted iff it is a response whose id is outstanding; lifetime of searches vs other operations; rejection closes the session; every history is also replayed on the Lean model and the observables relevant to C09 are compared after every call; "
+                 "plus (implementation only) responses and requests whose message id has more decimal digits than the interpreter's int/str limit (default and 640); "
                  "distinct = distinct (session, call kind, outcome kind) sequences")
     return r
 
